@@ -735,6 +735,14 @@ func NowNanos() int64 {
 	return epochNanos + cur.now
 }
 
+// RaiseStepCap lets a world that has drawn a long scenario extend the run's
+// step budget (never below the configured one).
+func RaiseStepCap(n int) {
+	if cur != nil && n > cur.cfg.StepCap {
+		cur.cfg.StepCap = n
+	}
+}
+
 // Elapsed is simulated time since the start of the run.
 func Elapsed() int64 {
 	if cur == nil {
